@@ -127,6 +127,7 @@ class Obj:
         self.term = term  # origin term for opaque objects
         self.open_attrs = open_attrs  # unknown attribute -> attr-term (else Unknown)
         self.stores: List[Tuple[str, Any]] = []  # attribute stores in program order
+        self.dyn: Dict[str, Any] = {}  # computed attributes: name -> callable() (abstract library models)
 
     def __repr__(self) -> str:
         return fmt(self)
